@@ -82,7 +82,11 @@ PROP = {
                     "a checkpoint name read back from the target's checkpoint hash is assumed to be one the tool generated (brace-free); only generated names are checked",
                     "slot-map holes (a slot without a known owner) refuse a single-slot unit at the client: outside the statements (Covered), exercised only by the txn ops",
                     "in parallel mode a unit the CLIENT refuses fails on its lane while later units of other slots may already have been dispatched on theirs (observed, counted "
-                    "as loop_parallel_lane_overtake): the property speaks of the refused transaction itself, of which nothing is sent"],
+                    "as loop_parallel_lane_overtake): the property speaks of the refused transaction itself, of which nothing is sent",
+                    "the send-loop cases run in real time (TCP node doubles): a run ends when the loop returns or when the nodes hold every block a correct run delivers "
+                    "(blocks are matched to their case by the run id in the marker, so a lane worker of an earlier case cannot pollute a later one or take its armed fault); "
+                    "no monitor depends on a block being absent at a point in time except after that explicit wait; a run that reaches neither condition in 20 s is retried once "
+                    "and only judged if it stalls again (counted loop_stalled_retry / loop_stalled_twice)"],
     "partial": [],
 }
 
